@@ -237,3 +237,18 @@ CHECKS["C09"] = {
     "note": TRUST + " d=2 quick, 3 thorough. Resident bound = 4 x read_bufsize + largest segment + 128 KiB (codec block granularity; brotli emits up to ~96 KiB "
             "whatever the limit); read() without a size lifts the limit by design and is not judged for memory; reference decoders: zlib, gzip, brotli, backports.zstd.",
 }
+
+CHECKS["C18"] = {
+    "engine": "SCHED",
+    "design_ref": "§3 C18, §2.1-2.3",
+    "technique": "exhaustive fault-placement enumeration (stall phase x timeout kind x cancellation point) of a real ClientSession/TCPConnector under virtual time",
+    "text": "About 150 scenarios = 12 stall phases (pool slot, DNS, TCP connect, request-body write against a full socket buffer, before / inside the status line, "
+            "inside a header, before the body, inside a chunk, before the chunked terminator, inside a length-framed body, after a flow-control pause and resume) x "
+            "timeout kind (total, connect, sock_connect, sock_read) x value below and above the 5 s ceiling threshold x with/without a sibling request sharing the "
+            "pool queue or the in-flight DNS lookup, plus healthy exchanges; every schedule with <= d deviations over DNS/TCP completion order, I/O, the clock and "
+            "cancellation of the stalled request at any loop pass (alone, or together with a new request to the same host in the same pass).  Judged: timeout error "
+            "within the bound (+1 s when ceiled) in the phases the kind covers, connection closed and never reused, pool counters and waiters back to zero, no task "
+            "left, sibling and follow-up requests answered.",
+    "note": TRUST + " d=1 quick, 2 thorough. Real TCPConnector with a scripted resolver; aiohttp.connector.aiohappyeyeballs.start_connection and create_connection are "
+            "rebound to the in-memory wire; the clock never advances while callbacks are queued.",
+}
